@@ -425,7 +425,7 @@ def cli_replay(pid, ob, values, outdir):
 # ---- obligations added late in the session (regression coverage of repaired defects)
 def ob_hfe_header_dump(pid):
     return X.cxx_ob(pid, "hfe_header_dump", W_HFE, "h_hfe_header_dump", "operator<<(ostream&, picfileformatheader) (the --verbose header dump) on arbitrary header bytes: "
-                    "the non-terminated 8-byte signature is written as 8 bytes, nothing inside the header is streamed as a C string, output goes to the given stream only",
+                    "nothing inside the header (in particular the non-terminated 8-byte signature) is streamed as a C string, output goes to the given stream only",
                     "26 header bytes symbolic", ["dfs/img_hfe.cc:operator<<(picfileformatheader)", "decode_header"], unwind=30,
                     unwindset=[("h_hfe_header_dump", 2000), ("X_strlen", 64)], weight_gb=4)
 # ob_hfe_ctor_degenerate is NOT registered: no verdict in 1200 s (the whole HfeFile constructor with its clean-up paths); regression seed fix11-revert stays missed.
